@@ -227,6 +227,7 @@ SameValue(x, y) ==      \* x expected, y observed; numbers by value, TRUE/1 dist
          [] x.t = "blank" -> TRUE
          [] x.t = "err" -> x.c = y.c
          [] x.t = "date" -> x.y = y.y /\ x.mo = y.mo /\ x.d = y.d /\ x.ms = y.ms
+         [] x.t = "opq" -> x.r = y.r            \* host objects: identity tag
          [] OTHER -> FALSE
 
 RECURSIVE SameDeep(_, _)
